@@ -7,11 +7,18 @@ Open Scope Z_scope.
 Definition tmax : Z := 4102444800000000000.
 Definition time_ok (t : Z) : Prop := 0 <= t <= tmax.
 
+(* the normal domain D for the limits of one key: emission interval E >= 1 ns, burst B >= 1,
+   B * E <= 2^60 ns *)
+Definition inD (E B : Z) : Prop := 1 <= E /\ 1 <= B /\ E * B <= 2^60.
+
 Section L.
 Variables E B : Z.
-Hypothesis HE : 1 <= E.
-Hypothesis HB : 1 <= B.
-Hypothesis HEB : E * B <= 2^60.
+Hypothesis HD : inD E B.
+
+Lemma HE : 1 <= E. Proof. exact (proj1 HD). Qed.
+Lemma HB : 1 <= B. Proof. exact (proj1 (proj2 HD)). Qed.
+Lemma HEB : E * B <= 2^60. Proof. exact (proj2 (proj2 HD)). Qed.
+Ltac dom := pose proof HE as HE'; pose proof HB as HB'; pose proof HEB as HEB'; change (2^60) with 1152921504606846976 in HEB'.
 
 Notation T := (T E B).
 Notation retention := (retention E B).
@@ -21,17 +28,17 @@ Notation kstep := (kstep E B).
 Lemma T_eq : T = E * B - E.
 Proof. unfold KeyStep.T. ring. Qed.
 Lemma T_nonneg : 0 <= T.
-Proof. unfold KeyStep.T. nia. Qed.
+Proof. dom. unfold KeyStep.T. nia. Qed.
 Lemma T_plus_E : T + E = E * B.
 Proof. rewrite T_eq. ring. Qed.
 Lemma EB_bound : E * B <= 1152921504606846976.
 Proof. exact HEB. Qed.
 Lemma T_bound : T <= 1152921504606846976.
-Proof. pose proof T_plus_E. pose proof EB_bound. lia. Qed.
+Proof. dom. pose proof T_plus_E. pose proof EB_bound. lia. Qed.
 Lemma E_bound : E <= 1152921504606846976.
-Proof. pose proof EB_bound. nia. Qed.
+Proof. dom. nia. Qed.
 Lemma retention_bounds : E <= retention /\ T <= retention /\ retention <= E * B.
-Proof. unfold KeyStep.retention. pose proof T_plus_E. pose proof T_nonneg. lia. Qed.
+Proof. dom. unfold KeyStep.retention. pose proof T_plus_E. pose proof T_nonneg. lia. Qed.
 
 (* per-key invariant at (or after) time t: the entry outlives its influence, and the stored
    TAT is never beyond the burst horizon of the last admission *)
@@ -45,7 +52,7 @@ Lemma eff_ge s now : now - E <= eff s now.
 Proof. unfold KeyStep.eff. destruct (kvisible s now); lia. Qed.
 
 Lemma eff_le s t now : Inv s t -> t <= now -> eff s now <= now + T.
-Proof.
+Proof. dom.
   pose proof T_nonneg.
   unfold KeyStep.eff, kvisible. destruct s as [[tat ex]|]; simpl; [|lia].
   intros [H1 H2] Hle. destruct (now <? ex); lia.
@@ -66,7 +73,7 @@ Qed.
 Lemma kstep_allowed s t q now :
   Inv s t -> t <= now -> time_ok now -> 0 <= q ->
   allowed (snd (kstep s q now)) = (eff s now + E * q - T <=? now).
-Proof.
+Proof. dom.
   intros HI Hle Ht Hq. unfold KeyStep.kstep. cbn [snd allowed].
   pose proof (eff_ge s now). pose proof (eff_le s t now HI Hle). pose proof T_bound. pose proof T_nonneg. pose proof E_bound.
   unfold time_ok, tmax in Ht. unfold i64max.
@@ -83,16 +90,17 @@ Lemma kstep_admit s t q now :
   eff s now + E * q - T <= now ->
   let new := eff s now + E * q in
   kstep s q now =
-  (Some (new, now + (Z.max (new - now) 0 + retention)),
+  ((if 0 <? q then Some (new, now + (Z.max (new - now) 0 + retention)) else s),
    {| allowed := true; limit := B; remaining := Z.max ((now + T - new) / E) 0;
       reset_after := Z.max (new - now) 0 + retention; retry_after := 0 |}).
-Proof.
+Proof. dom.
   intros HI Hle Ht Hq Hok. cbv zeta. unfold KeyStep.kstep.
   pose proof (eff_ge s now). pose proof (eff_le s t now HI Hle). pose proof T_bound. pose proof T_nonneg. pose proof E_bound.
   unfold time_ok, tmax in Ht.
   assert (Hmin : Z.min (eff s now + Z.min (E * q) i64max) i64max = eff s now + E * q) by (unfold i64max; lia).
   rewrite Hmin.
-  destruct (Z.leb_spec (eff s now + E * q - T) now); [reflexivity|lia].
+  destruct (Z.leb_spec (eff s now + E * q - T) now); [|lia].
+  cbn [andb]. reflexivity.
 Qed.
 
 (* denied request: state untouched *)
@@ -103,7 +111,7 @@ Lemma kstep_deny s t q now :
   (s, {| allowed := false; limit := B; remaining := Z.max ((now + T - eff s now) / E) 0;
          reset_after := Z.max (eff s now - now) 0 + retention;
          retry_after := Z.max (Z.min (eff s now + Z.min (E * q) i64max) i64max - T - now) 0 |}).
-Proof.
+Proof. dom.
   intros HI Hle Ht Hq Hno. unfold KeyStep.kstep.
   pose proof (eff_ge s now). pose proof (eff_le s t now HI Hle). pose proof T_bound. pose proof T_nonneg. pose proof E_bound.
   unfold time_ok, tmax in Ht.
@@ -114,10 +122,11 @@ Qed.
 (* the invariant is preserved, and holds at the time of the step *)
 Lemma kstep_inv s t q now :
   Inv s t -> t <= now -> time_ok now -> 0 <= q -> Inv (fst (kstep s q now)) now.
-Proof.
+Proof. dom.
   intros HI Hle Ht Hq.
   destruct (Z_le_gt_dec (eff s now + E * q - T) now) as [Hok|Hno].
-  - rewrite (kstep_admit s t q now HI Hle Ht Hq Hok). cbn [fst Inv].
+  - rewrite (kstep_admit s t q now HI Hle Ht Hq Hok). cbn [fst].
+    destruct (0 <? q); [|eapply Inv_mono; eauto]. cbn [Inv].
     pose proof retention_bounds. lia.
   - rewrite (kstep_deny s t q now HI Hle Ht Hq ltac:(lia)). cbn [fst]. eapply Inv_mono; eauto.
 Qed.
@@ -126,3 +135,10 @@ Lemma Inv_none t : Inv None t.
 Proof. exact I. Qed.
 
 End L.
+
+Lemma kstep_denied_state E B s q now :
+  allowed (snd (kstep E B s q now)) = false -> fst (kstep E B s q now) = s.
+Proof. unfold kstep. cbn [fst snd allowed]. intros ->. reflexivity. Qed.
+
+Lemma kstep_zero_state E B s now : fst (kstep E B s 0 now) = s.
+Proof. unfold kstep. cbn [fst]. rewrite andb_false_r. reflexivity. Qed.
